@@ -97,7 +97,7 @@ CHECKS = {
    ref='7 (C18)'),
  'C10': dict(
    cat='proof',
-   text='Theorems over the push/pull/peek selects, guards and key constants regenerated from core.py. Integer queue and every string prefix: the range-restricted, key-ordered view evolves as a double-ended queue; order of 15-digit zero-padded keys proved = numeric order; peek = next pull; invariant inductive over all push/pull/peek histories; isolation for prefixes not extending one another by a dash and a digit, and frame for every row outside the range; full isolation refuted by a vm_compute witness = findings C10-F1/F2; validity range 0 < n < 999999999999999; exactly-once and per-producer order for all schedules of an atomic queue machine; push/pull/peek with their REAL bodies are calls of the micro-step machine (TxnQueue): invariant for every schedule with kills, a delivering pull's commit removes exactly the delivered committed row under the lock; that instance is driven by the schedules the implementation ran under (queuecorr, sched_check). Tie: SQL/guard translator + bridge lemmas + row-level model-vs-implementation comparison after every call + ledger monitor + scheduler/process runs.',
+   text='Theorems over the push/pull/peek selects, guards and key constants regenerated from core.py. Integer queue and every string prefix: the range-restricted, key-ordered view evolves as a double-ended queue; order of 15-digit zero-padded keys proved = numeric order; peek = next pull; invariant inductive over all push/pull/peek histories; isolation for prefixes not extending one another by a dash and a digit, and frame for every row outside the range; full isolation refuted by a vm_compute witness = findings C10-F1/F2; validity range 0 < n < 999999999999999; exactly-once and per-producer order for all schedules of an atomic queue machine; push/pull/peek with their REAL bodies are calls of the micro-step machine (TxnQueue): invariant for every schedule with kills, the commit of a delivering pull removes exactly the delivered committed row under the lock; that instance is driven by the schedules the implementation ran under (queuecorr, sched_check). Tie: SQL/guard translator + bridge lemmas + row-level model-vs-implementation comparison after every call + ledger monitor + scheduler/process runs.',
    note='Trusted: Coq kernel; SqlBase/Val model of WHERE/ORDER BY/LIMIT; hand-written skeleton of push/pull/peek/_cull in Cache.v (validated per call). The model has no UNIQUE constraint (C10-F2 is monitor-only). Concurrent clause proved at the atomic layer; atomicity of single calls is C05. Push under a quiet _cull; returned-key identity stated via the inserted row.',
    tech='Coq proof (stable-sort/filter commutation, invariant induction, lexicographic-digit arithmetic, schedule induction) + generated model + differential histories + deterministic-scheduler enumeration',
    ref='7 (C10)'),
